@@ -76,10 +76,22 @@ pub struct SubState {
 pub struct Sub<T> {
     pub k: usize,
     pub edge: EdgeId,
-    pub sink: Arc<Sink<T>>,
+    /// released as soon as the subscription is over (ended by the puppet or stopped from below), as
+    /// a real source forgets a subscriber that is gone: whatever the operator keeps alive only
+    /// through this handle goes away then
+    pub sink: Mutex<Option<Arc<Sink<T>>>>,
     pub st: Mutex<SubState>,
     pub err: DynErr,
     pub err_id: i32,
+}
+
+impl<T> Sub<T> {
+    fn send(&self, m: Message<T, Never>) {
+        let s = self.sink.lock().unwrap().clone();
+        if let Some(s) = s {
+            s(m);
+        }
+    }
 }
 
 pub struct Puppet<T> {
@@ -143,7 +155,7 @@ impl<T: Clone + Send + Sync + 'static> Puppet<T> {
         let sub = Arc::new(Sub {
             k,
             edge,
-            sink,
+            sink: Mutex::new(Some(sink)),
             st: Mutex::new(SubState { ended_with_err: -1, ..Default::default() }),
             err,
             err_id,
@@ -188,7 +200,7 @@ impl<T: Clone + Send + Sync + 'static> Puppet<T> {
         };
         {
             let _f = self.world.enter(sub.edge, Dir::Down, Kind::Handshake, Val::none(), -1);
-            (sub.sink)(Message::Handshake(talkback));
+            sub.send(Message::Handshake(talkback));
         }
         if self.spec.mode == Mode::Listen {
             for _ in 0..self.spec.burst {
@@ -259,6 +271,7 @@ impl<T: Clone + Send + Sync + 'static> Puppet<T> {
                 h();
             }
         }
+        *sub.sink.lock().unwrap() = None;
     }
 
     /// every subscription that has not been greeted yet greets now
@@ -320,7 +333,7 @@ impl<T: Clone + Send + Sync + 'static> Puppet<T> {
             What::Data(v, t) => {
                 {
                     let _f = self.world.enter(sub.edge, Dir::Down, Kind::Data, v, -1);
-                    (sub.sink)(Message::Data(t));
+                    sub.send(Message::Data(t));
                 }
                 if self.spec.eager_end && self.spec.fin != Fin::Never {
                     let last = { sub.st.lock().unwrap().pos >= self.items.len() };
@@ -332,11 +345,13 @@ impl<T: Clone + Send + Sync + 'static> Puppet<T> {
             },
             What::End => {
                 let _f = self.world.enter(sub.edge, Dir::Down, Kind::Terminate, Val::none(), -1);
-                (sub.sink)(Message::Terminate);
+                sub.send(Message::Terminate);
+                *sub.sink.lock().unwrap() = None;
             },
             What::Err => {
                 let _f = self.world.enter(sub.edge, Dir::Down, Kind::Error, Val::none(), sub.err_id);
-                (sub.sink)(Message::Error(Arc::clone(&sub.err)));
+                sub.send(Message::Error(Arc::clone(&sub.err)));
+                *sub.sink.lock().unwrap() = None;
             },
         }
         true
